@@ -9,5 +9,8 @@ from sa import alpha
 REPO = Path(sys.argv[1] if len(sys.argv) > 1 else "/repo")
 texts = {str(p.relative_to(REPO)): p.read_text() for p in sorted((REPO / "src/gotranx").rglob("*.py"))}
 t = alpha.build_table(texts)
+from sa import gm
+G = gm.GrammarModel(REPO, normalise_renames=False)
+t["grammar"] = {name: r["shape"] for name, r in G.rules.items()}
 (VERIF / "anchors.json").write_text(json.dumps(t, indent=0, sort_keys=True) + "\n")
 print(f"{sum(len(m) for m in t['modules'].values())} functions in {len(t['modules'])} modules, {len(t['identifiers'])} identifiers")
